@@ -16,8 +16,8 @@ NUMS = ['-32769', '-32768', '-1', '0', '1', '255', '256', '32767', '32768', '655
         '1E38', '-1E38', '.5', '1D300', 'X%', 'A$']
 NUMS_QUICK = ['-32768', '-1', '0', '1', '255', '256', '32767', '65535', '65536', '1E38', 'A$']
 STRS = ['""', '"A"', 'CHR$(0)', 'CHR$(255)', 'STRING$(255,"x")', '"A=B"', '"-1:00:00"', '"..\\X"',
-        '"A="+CHR$(0)', '"C:\\*.*"', '"SCRN:"', '"KYBD:"', '"LPT1:"', '"COM1:"', '"CAS1:"', '1', 'B$']
-STRS_QUICK = ['""', '"A"', 'CHR$(0)', 'STRING$(255,"x")', '"A=B"', '"A="+CHR$(0)', '"-1:00:00"', '"..\\X"', '"SCRN:"', '1']
+        '"A="+CHR$(0)', '"A=B"+CHR$(0)+"C"', '"A"+CHR$(0)+"B=C"', '"C:\\*.*"', '"SCRN:"', '"KYBD:"', '"LPT1:"', '"COM1:"', '"CAS1:"', '1', 'B$']
+STRS_QUICK = ['""', '"A"', 'CHR$(0)', 'STRING$(255,"x")', '"A=B"', '"A="+CHR$(0)', '"A=B"+CHR$(0)+"C"', '"A"+CHR$(0)+"B=C"', '"-1:00:00"', '"..\\X"', '"SCRN:"', '1']
 
 STATEMENTS = {
     'AUTO': ['AUTO', 'AUTO {n}', 'AUTO {n},{n}', 'AUTO .', 'AUTO ,{n}'],
